@@ -20,13 +20,29 @@ def repOk (rep : List Char) : Bool :=
   let m := b.foldl (fun n c => 10 * n + (c.toNat - '0'.toNat)) 0
   n ≤ m && !(n == 0 && m == 0)
 
+def Atom.pkgPair : Atom → Option (List Char × Option (List Char))
+  | .pkg k r => some (k, r)
+  | _ => none
+
+/-- package occurrences of the tree, in document order -/
+def pkgPairs (e : Expr) : List (List Char × Option (List Char)) := e.atoms.filterMap Atom.pkgPair
+
+def badRep (kr : List Char × Option (List Char)) : Bool :=
+  match kr.2 with
+  | some r => !repOk r
+  | none => false
+
+def badBody (P : List Char → Option (List Char)) (kr : List Char × Option (List Char)) : Bool :=
+  match P kr.1 with
+  | some b => (parseCond b).isNone
+  | none => false
+
 /-- the three failure modes in the order the code meets them: a bad repeatability (raised synchronously while the tree is
 transformed), then an unknown package, then a package body that is not a condition expression -/
 def pkgFailure (P : List Char → Option (List Char)) (e : Expr) : Option ResErr :=
-  let pk := e.atoms.filterMap fun a => match a with | .pkg k r => some (k, r) | _ => none
-  if pk.any (fun kr => match kr.2 with | some r => !repOk r | none => false) then some .valueError
-  else if pk.any (fun kr => (P kr.1).isNone) then some .notImplemented
-  else if pk.any (fun kr => match P kr.1 with | some b => (parseCond b).isNone | none => false) then some .syntaxError
+  if (pkgPairs e).any badRep then some .valueError
+  else if (pkgPairs e).any (fun kr => (P kr.1).isNone) then some .notImplemented
+  else if (pkgPairs e).any (badBody P) then some .syntaxError
   else none
 
 /-- what a package leaf becomes -/
